@@ -98,6 +98,11 @@ class Facts:
                 self.bodies[name] = b
             for a in d['adts']:
                 self.adts[c + '::' + a['path']] = a
+                if a['kind'] == 'enum':
+                    from . import cfg as _cfg
+                    ds = [int(v['discr']) for v in a['variants']]
+                    if ds == list(range(len(ds))):
+                        _cfg.ENUM_VARIANTS[a['path']] = len(ds)
             for s in d['statics']:
                 s = dict(s); s['crate'] = c; self.statics.append(s)
             for u in d['unsafe']:
